@@ -302,6 +302,14 @@ func enumerate(s seedFile, rng *rand.Rand, quick bool, emit func(testCase)) {
 				emit(testCase{dec, modePlain, 0, bytes.Replace(s.data, []byte("\n"), []byte("\r"), n/2), s.name + "/line-ends=CR-then-LF"})
 			}
 		}
+		// data after the end of a complete file: form feeds and vertical tabs (page separators),
+		// blank space of every kind, a second copy of the file, text, NULs
+		for ti, tail := range []string{"\f", "\v", "\n\n\fpage 2: notes\n", " \t\vsolid next\n", "\x00\x00\x00", "\r\n \r\n", "trailing text\n", "\u00a0\u2028\n", string(s.data), "\f" + string(s.data)} {
+			if !s.text && ti < 8 && ti != 4 {
+				continue
+			}
+			emit(testCase{dec, modePlain, 0, append(append([]byte{}, s.data...), tail...), fmt.Sprintf("%s/trailing-data-%d", s.name, ti)})
+		}
 		emit(testCase{dec, modeOneByte, 0, s.data, s.name + "/valid-1byte-reads"})
 		// every truncation point
 		step := 1
